@@ -589,7 +589,7 @@ func checkSlow(c slowCase) *rp.Fail {
 }
 
 func props() []rp.Prop {
-	n := ev.Pick(30000, 1500000) / ev.Shards()
+	n := ev.Pick(30000, 3000000) / ev.Shards()
 	return []rp.Prop{
 		rp.P[bytesCase]{Name: "bytes", Checks: n, Gen: genBytes, Check: checkBytes},
 		rp.P[replyCase]{Name: "api-reply", Checks: n, Gen: genReply, Sweep: sweepReplies, Check: checkReply},
